@@ -62,7 +62,12 @@ def _task(t):
     outcomes = set()
     viols = {}
     extra = {}
+    growing = n > 16 and any(op in ("pow", "lshift", "rshift") for op in O.expr_ops(prog["expr"]))
     for vec in E.input_vectors(prog, vals):
+        if growing and len(vec) > 1 and abs(vec[1]) > 1024:
+            # exponents / shift counts of 2^32 and more: the library multiplies that many times (no answer to compare)
+            st["skipped_huge_exponent"] = st.get("skipped_huge_exponent", 0) + 1
+            continue
         for mode in modes:
             o = E.execute(prog, vec, mode, n, want_trace, p, _WANT_STEPS)
             st["executions"] += 1
@@ -152,7 +157,7 @@ def dedupe_violations(ctx):
     ctx.violations = list(seen.values())
 
 
-def standard_configs(ctx, fields=None, small=(1, 2, 3), big=(4, 8, 16)):
+def standard_configs(ctx, fields=None, small=(1, 2, 3), big=(4, 8, 16, 33, 64, 65, 128)):
     """(n, p, values) list per tier.  quick: D(2), D(3) complete + lattice(8) on bn128;
     thorough: all three real fields, lattices 4, 8, 16."""
     cfg = []
@@ -168,7 +173,7 @@ def standard_configs(ctx, fields=None, small=(1, 2, 3), big=(4, 8, 16)):
             if ctx.thorough or i == 0 or n == 2:
                 cfg.append((n, p, E.D(n)))
         for n in big:
-            if ctx.thorough or (i == 0 and n == 8):
+            if ctx.thorough or (i == 0 and n in (8, 65)):
                 cfg.append((n, p, E.lattice(n)))
     return cfg
 
